@@ -1,0 +1,136 @@
+//go:build verif
+
+package types
+
+// Contracts for the deductive checks in /verif (read by /verif/govc; comment-only, no code).
+
+//@ func safeAdd
+//@   ensures exact: !result1 ==> result0 == a + b
+//@   ensures flag: result1 <==> (a + b > 9223372036854775807 || a + b < -9223372036854775808)
+//@   checks ovf
+
+//@ func safeSub
+//@   ensures exact: !result1 ==> result0 == a - b
+//@   ensures flag: result1 <==> (a - b > 9223372036854775807 || a - b < -9223372036854775808)
+//@   checks ovf
+
+//@ func safeAddClip
+//@   ensures clip: result == ite(a + b > 9223372036854775807, 9223372036854775807, ite(a + b < -9223372036854775808, -9223372036854775808, a + b))
+
+//@ func safeSubClip
+//@   ensures clip: result == ite(a - b > 9223372036854775807, 9223372036854775807, ite(a - b < -9223372036854775808, -9223372036854775808, a - b))
+
+//@ func safeMul
+//@   requires a > -9223372036854775808 && b > -9223372036854775808
+//@   ensures exact: !result1 ==> result0 == a * b
+//@   ensures flag: result1 <==> (a * b > 9223372036854775807 || a * b < -9223372036854775807)
+//@   checks ovf
+
+// ---- signatures and canonical sign bytes (C07 and everything that builds on it) ----
+
+//@ spec func sigOK(pk crypto.PubKey, msg []byte, sig []byte) bool
+//@ spec func signBytes(chainID string, typ int32, height int64, round int32, bhash []byte, ptotal uint32, phash []byte, ts int64) []byte
+
+//@ extern crypto.PubKey.VerifySignature
+//@   ensures det: result == sigOK(self, msg, sig)
+
+// Assumed about the protobuf encoder: the canonical sign bytes are a function of exactly these fields.
+//@ func VoteSignBytes
+//@   trusted
+//@   assigns nothing
+//@   ensures canon: result == signBytes(chainID, int32(vote.Type), vote.Height, vote.Round, vote.BlockID.Hash, vote.BlockID.PartSetHeader.Total, vote.BlockID.PartSetHeader.Hash, vote.Timestamp)
+
+//@ func Commit.VoteSignBytes
+//@   assigns nothing
+//@   ensures sb: result == signBytes(chainID, 2, commit.Height, commit.Round,
+//@     | ite(commit.Signatures[valIdx].BlockIDFlag == BlockIDFlagCommit, commit.BlockID.Hash, nil),
+//@     | ite(commit.Signatures[valIdx].BlockIDFlag == BlockIDFlagCommit, commit.BlockID.PartSetHeader.Total, 0),
+//@     | ite(commit.Signatures[valIdx].BlockIDFlag == BlockIDFlagCommit, commit.BlockID.PartSetHeader.Hash, nil),
+//@     | commit.Signatures[valIdx].Timestamp)
+
+// ---- validator set well-formedness and total power ----
+
+//@ spec func totalPower(vals *ValidatorSet, n int) int64 = ite(n <= 0, 0, totalPower(vals, n-1) + vals.Validators[n-1].VotingPower)
+//@ spec func wfPowers(vals *ValidatorSet) bool = len(vals.Validators) <= 2147483647 && forall(i, 0, len(vals.Validators), vals.Validators[i] != nil && vals.Validators[i].VotingPower >= 0)
+//@ spec func wfCached(vals *ValidatorSet) bool = vals.totalVotingPower == 0 || (vals.totalVotingPower == totalPower(vals, len(vals.Validators)) && 0 <= vals.totalVotingPower && vals.totalVotingPower <= MaxTotalVotingPower)
+
+//@ func ValidatorSet.updateTotalVotingPower
+//@   requires wfPowers(vals)
+//@   assigns vals.totalVotingPower
+//@   ensures sum: vals.totalVotingPower == totalPower(vals, len(vals.Validators))
+//@   ensures bound: 0 <= vals.totalVotingPower && vals.totalVotingPower <= MaxTotalVotingPower
+//@   loop 1 invariant idx: 0 <= rangeindex + 1 && rangeindex + 1 <= len(vals.Validators)
+//@   loop 1 invariant acc: sum == totalPower(vals, rangeindex + 1) && 0 <= sum && sum <= MaxTotalVotingPower
+
+//@ func ValidatorSet.TotalVotingPower
+//@   requires wfPowers(vals)
+//@   requires wfCached(vals)
+//@   assigns vals.totalVotingPower
+//@   ensures sum: result == totalPower(vals, len(vals.Validators))
+//@   ensures cached: result == vals.totalVotingPower && 0 <= result && result <= MaxTotalVotingPower
+
+// ---- C07: commit verification ----
+
+// goodSig(i): slot i is flagged for-the-block and carries a signature of validator i (same index) over the
+// canonical precommit for exactly (chainID, commit.Height, commit.Round, commit.BlockID).
+//@ spec func goodSig(vals *ValidatorSet, commit *Commit, chainID string, i int) bool =
+//@   | commit.Signatures[i].BlockIDFlag == BlockIDFlagCommit &&
+//@   | sigOK(vals.Validators[i].PubKey, signBytes(chainID, 2, commit.Height, commit.Round, commit.BlockID.Hash, commit.BlockID.PartSetHeader.Total, commit.BlockID.PartSetHeader.Hash, commit.Signatures[i].Timestamp), commit.Signatures[i].Signature)
+//@ spec func tally(vals *ValidatorSet, commit *Commit, chainID string, n int) int64 =
+//@   | ite(n <= 0, 0, tally(vals, commit, chainID, n-1) + ite(goodSig(vals, commit, chainID, n-1), vals.Validators[n-1].VotingPower, 0))
+
+//@ func ValidatorSet.VerifyCommit
+//@   requires wfPowers(vals)
+//@   requires wfCached(vals)
+//@   ensures size: result == nil ==> len(commit.Signatures) == len(vals.Validators)
+//@   ensures height: result == nil ==> commit.Height == height
+//@   ensures blockid: result == nil ==> commit.BlockID == blockID
+//@   ensures quorum: result == nil ==> 3 * tally(vals, commit, chainID, len(commit.Signatures)) > 2 * totalPower(vals, len(vals.Validators))
+//@   loop 1 invariant idx: 0 <= rangeindex + 1 && rangeindex + 1 <= len(commit.Signatures)
+//@   loop 1 invariant acc: talliedVotingPower == tally(vals, commit, chainID, rangeindex + 1)
+
+//@ func ValidatorSet.VerifyCommitLight
+//@   requires wfPowers(vals)
+//@   requires wfCached(vals)
+//@   ensures size: result == nil ==> len(commit.Signatures) == len(vals.Validators)
+//@   ensures height: result == nil ==> commit.Height == height
+//@   ensures blockid: result == nil ==> commit.BlockID == blockID
+//@   ensures quorum: result == nil ==> exists(k, 0, len(commit.Signatures) + 1, 3 * tally(vals, commit, chainID, k) > 2 * totalPower(vals, len(vals.Validators)), idx + 1)
+//@   loop 1 invariant idx: 0 <= rangeindex + 1 && rangeindex + 1 <= len(commit.Signatures)
+//@   loop 1 invariant acc: talliedVotingPower == tally(vals, commit, chainID, rangeindex + 1)
+
+// idxFrom: first index in [lo, len) whose validator has this address, else -1.
+//@ spec func idxFrom(vals *ValidatorSet, addr []byte, lo int) int =
+//@   | ite(lo >= len(vals.Validators), -1, ite(vals.Validators[lo].Address == addr, lo, idxFrom(vals, addr, lo+1)))
+//@ spec func idxOf(vals *ValidatorSet, addr []byte) int = idxFrom(vals, addr, 0)
+
+//@ func ValidatorSet.GetByAddress
+//@   requires len(vals.Validators) <= 2147483647
+//@   assigns nothing
+//@   ensures idx: result0 == old(idxOf(vals, address))
+//@   ensures rng: -1 <= result0 && result0 < len(vals.Validators)
+//@   ensures none: result0 < 0 <==> result1 == nil
+//@   ensures copy: result0 >= 0 ==> result1.VotingPower == vals.Validators[result0].VotingPower && result1.PubKey == vals.Validators[result0].PubKey && result1.Address == vals.Validators[result0].Address
+//@   loop 1 invariant idx: 0 <= rangeindex + 1 && rangeindex + 1 <= len(vals.Validators)
+//@   loop 1 invariant none: idxOf(vals, address) == idxFrom(vals, address, rangeindex + 1)
+
+// ---- C07: trusting variant. vidx(j): validator index named by the address in commit slot j (or -1). ----
+//@ spec func vidx(vals *ValidatorSet, commit *Commit, j int) int = idxOf(vals, commit.Signatures[j].ValidatorAddress)
+//@ spec func known(vals *ValidatorSet, commit *Commit, j int) bool = commit.Signatures[j].BlockIDFlag == BlockIDFlagCommit && vidx(vals, commit, j) >= 0
+//@ spec func trustGood(vals *ValidatorSet, commit *Commit, chainID string, j int) bool = known(vals, commit, j) &&
+//@   | sigOK(vals.Validators[vidx(vals, commit, j)].PubKey, signBytes(chainID, 2, commit.Height, commit.Round, commit.BlockID.Hash, commit.BlockID.PartSetHeader.Total, commit.BlockID.PartSetHeader.Hash, commit.Signatures[j].Timestamp), commit.Signatures[j].Signature)
+//@ spec func trustTally(vals *ValidatorSet, commit *Commit, chainID string, n int) int64 =
+//@   | ite(n <= 0, 0, trustTally(vals, commit, chainID, n-1) + ite(trustGood(vals, commit, chainID, n-1), vals.Validators[vidx(vals, commit, n-1)].VotingPower, 0))
+//@ spec func distinctSigners(vals *ValidatorSet, commit *Commit, n int) bool =
+//@   | forall(a, 0, n, forall(b, 0, n, known(vals, commit, a) && known(vals, commit, b) && a != b ==> vidx(vals, commit, a) != vidx(vals, commit, b)))
+
+//@ func ValidatorSet.VerifyCommitLightTrusting
+//@   requires len(commit.Signatures) <= 2147483647
+//@   requires wfPowers(vals)
+//@   requires wfCached(vals)
+//@   ensures trust: result == nil ==> exists(k, 0, len(commit.Signatures) + 1,
+//@     | trustTally(vals, commit, chainID, k) * trustLevel.Denominator > totalPower(vals, len(vals.Validators)) * trustLevel.Numerator && distinctSigners(vals, commit, k), idx + 1)
+//@   loop 1 invariant idx: 0 <= rangeindex + 1 && rangeindex + 1 <= len(commit.Signatures)
+//@   loop 1 invariant acc: talliedVotingPower == trustTally(vals, commit, chainID, rangeindex + 1)
+//@   loop 1 invariant seen: forall(j, 0, rangeindex + 1, known(vals, commit, j) ==> has(seenVals, vidx(vals, commit, j)) && seenVals[vidx(vals, commit, j)] == j)
+//@   loop 1 invariant dist: distinctSigners(vals, commit, rangeindex + 1)
